@@ -329,7 +329,7 @@ def build_curated(stmts_per_level, dotted):
 
 def run_shard(rec):
     quick = rec.tier == 'quick'
-    rec.deadline = time.time() + (60 if quick else 800)
+    rec.deadline = time.time() + (300 if quick else 800)
     idx = 0
     for tag, mode, levels in curated_chains():
         for dotted in (False, True):
